@@ -260,6 +260,73 @@ class RegenHistory(Bounded):
             shutil.rmtree(top, ignore_errors=True)
 
 
+class FindDepfile(Bounded):
+    """find.write_depfile (Make flavour) read by the real GNU make: with the file included, the output is remade
+    exactly when one of the searched directories is newer, and a searched directory that has been deleted does not
+    stop make (the empty rule written for it must name that very directory)."""
+    target = 'bfg9000/builtins/find.py::write_depfile'
+    properties = ('C04', 'C08')
+    reason = 'file output inside a with-block, read back by an external make process: runtime contract only'
+    native_chunk = 4
+    alphabet = "a %#:|$'"
+
+    def native_inputs(self, case, alphabet, maxlen, rng, extra=0):
+        from contracts.bounded_cmd import arg_strings
+        for n in arg_strings(self.alphabet, 2):
+            if not n or n.endswith(' ') or n.startswith('~') or n.startswith('-'):
+                continue
+            yield {'dir': n}
+
+    def native_check(self, case, raw):
+        import shutil, subprocess, tempfile
+        from bfg9000.path import Path, Root
+        try:
+            d = Path(raw['dir'] + '/', Root.srcdir)
+        except ValueError:
+            return None
+        if d.root != Root.srcdir or d.suffix != raw['dir']:
+            return None                   # normalised to something else (`.`, drive-like prefix ...)
+        top = tempfile.mkdtemp(prefix='pyvc_depf_')
+        try:
+            src, b = top + '/src', top + '/b'
+            _os.makedirs(src + '/' + raw['dir'])
+            _os.makedirs(src + '/plain')
+            _os.makedirs(b)
+
+            class Env:
+                base_dirs = {Root.srcdir: Path(src, Root.absolute), Root.builddir: Path(b, Root.absolute)}
+            F.write_depfile(Env, Path('deps.mk'), Path('out.stamp'), [d, Path('plain/', Root.srcdir)], makeify=True)
+            _write(b + '/Makefile', 'out.stamp: ; @echo REGEN; touch out.stamp\ninclude deps.mk\n')
+            env = dict(_os.environ)
+            env.pop('MAKEFLAGS', None)
+
+            def make():
+                r = subprocess.run(['make', '-C', b, '--no-print-directory', 'out.stamp'], env=env,
+                                   capture_output=True, text=True, timeout=30)
+                return r.returncode, r.stdout + r.stderr
+            old, new = 1600000000, 1600001000
+            _write(b + '/out.stamp', '')
+            for f in (src + '/' + raw['dir'], src + '/plain'):
+                _os.utime(f, (old, old))
+            _os.utime(b + '/out.stamp', (new, new))
+            text = open(b + '/deps.mk').read()
+            rc, out = make()
+            if rc != 0 or 'REGEN' in out:
+                return self.fail(case, raw, 'not_remade_when_no_searched_directory_changed', depfile=text, make=out[-300:])
+            _os.utime(src + '/' + raw['dir'], (new + 50, new + 50))
+            rc, out = make()
+            if rc != 0 or 'REGEN' not in out:
+                return self.fail(case, raw, 'remade_when_the_searched_directory_changed', depfile=text, make=out[-300:])
+            _os.utime(b + '/out.stamp', (new + 100, new + 100))
+            shutil.rmtree(src + '/' + raw['dir'].split('/')[0])
+            rc, out = make()
+            if rc != 0:
+                return self.fail(case, raw, 'deleted_searched_directory_does_not_stop_make', depfile=text, make=out[-300:])
+            return True
+        finally:
+            shutil.rmtree(top, ignore_errors=True)
+
+
 def registry():
     from contracts import glob as G, paths as P
-    return [FindCacheJson(), RegenHistory()] + [c for c in G.registry() + P.registry() if 'C08' in c.properties]
+    return [FindCacheJson(), RegenHistory(), FindDepfile()] + [c for c in G.registry() + P.registry() if 'C08' in c.properties]
